@@ -297,6 +297,9 @@ pub struct Simk {
     pub fail_register: HashMap<u32, i32>,
     /// If set, all requests (also CLOSE etc.) are held until the explorer completes them.
     pub hold_all: bool,
+    /// Explicit closes (`AsyncFd::close`, user_data of an operation) stay in flight until completed
+    /// (Linux punts the close of some file types to a worker; it can then be cancelled).
+    pub hold_user_close: bool,
     /// Opcodes answered with -EINVAL at issue (old kernel).
     pub unsupported: Vec<u8>,
     /// Automatically consume submissions in `enter` (false: only via `consume`).
@@ -387,6 +390,7 @@ pub fn reset(plan: SetupPlan) {
             sync_cancel: SyncCancelMode::All,
             fail_register: HashMap::new(),
             hold_all: false,
+            hold_user_close: false,
             unsupported: Vec::new(),
             sqpoll_manual: false,
             would_block: 0,
@@ -1117,7 +1121,7 @@ impl Simk {
         match op {
             OP_ASYNC_CANCEL => self.do_cancel(ring, serial, &sqe),
             OP_MSG_RING => self.do_msg_ring(ring, serial, &sqe),
-            OP_CLOSE if !self.hold_all => {
+            OP_CLOSE if !self.hold_all && !(self.hold_user_close && user_data > 3) => {
                 self.complete(serial, Out::Default);
             }
             OP_NOP => self.finish(serial, 0, 0),
